@@ -2,60 +2,12 @@
    than the protocol maximum, a malformed packet ends the loop with a protocol error, and the
    well-formed packets before it are processed exactly as without it. Plus the inverse direction
    of C05: a PUBLISH produced by the encoder is parsed back to the same message. *)
-From MQ Require Import Base Codec Inbound Parse.
+(* Layout: the definitions used by the statements come first, then auxiliary lemmas; the theorems
+   of the property (unchanged statements) are proved where their ingredients are available. *)
+From MQ Require Import Base Codec Codec_proofs Inbound Parse.
 Open Scope N_scope.
 
-(* ---------- no parser panics, whatever (flag, body) it is given ---------- *)
-
-Theorem unpack_string_no_panic b : unpack_string b <> Panic.
-Proof. Admitted.
-
-Theorem parsers_no_panic flag body :
-  parse_connack flag body <> Panic /\ parse_publish flag body <> Panic /\
-  parse_puback flag body <> Panic /\ parse_pubrec flag body <> Panic /\
-  parse_pubrel flag body <> Panic /\ parse_pubcomp flag body <> Panic /\
-  parse_suback flag body <> Panic /\ parse_unsuback flag body <> Panic /\
-  parse_pingresp flag body <> Panic.
-Proof. Admitted.
-
-Theorem dispatch_no_panic h sb typ flag body : dispatch h sb typ flag body <> Panic.
-Proof. Admitted.
-
-(* ---------- readPacket ---------- *)
-
-Theorem read_packet_no_panic s : fst (read_packet s) <> RP_panic.
-Proof. Admitted.
-
-(* the body buffer requested from make() never exceeds the protocol maximum *)
-Theorem read_packet_alloc_bound s n : snd (read_packet s) = Some n -> n <= max_packet.
-Proof. Admitted.
-
-(* a frame produced with the encoder's length field is read back exactly, for every body length
-   the protocol allows *)
-Theorem read_packet_frame typ flag body b rest : typ < 16 -> flag < 16 ->
-  pack (typ * 16 + flag) body = Some b ->
-  read_packet (b ++ rest) = (RP_ok typ flag body rest, Some (len body)).
-Proof. Admitted.
-
-(* a length field whose fourth byte still has the continuation bit is rejected *)
-Theorem read_packet_overlong h c1 c2 c3 c4 rest :
-  128 <= c1 -> 128 <= c2 -> 128 <= c3 -> 128 <= c4 ->
-  read_packet (h :: c1 :: c2 :: c3 :: c4 :: rest) = (RP_err EInvalidPacketLength, None).
-Proof. Admitted.
-
-(* ---------- the serve loop ---------- *)
-
-Theorem serve_no_panic h s : snd (serve h s) <> EndPanic.
-Proof. Admitted.
-
-Theorem serve_fuel_sufficient h s : snd (serve h s) <> EndFuel.
-Proof. Admitted.
-
-Theorem serve_alloc_bound h s n : In (EvAlloc n) (fst (serve h s)) -> n <= max_packet.
-Proof. Admitted.
-
-(* ---------- malformed packets, as the property lists them (independent of the parsers) ---------- *)
-
+(* ---------- definitions of the statements ---------- *)
 (* the length-prefixed topic at the front of a PUBLISH body, if the body is long enough *)
 Definition topic_of (body : list N) : option (list N * list N) :=
   match body with
@@ -84,14 +36,692 @@ Definition malformed (typ flag : N) (body : list N) : bool :=
 Definition protocol_error (e : perr) : Prop :=
   e = EInvalidPacket \/ e = EInvalidPacketLength \/ e = EInvalidRune.
 
+(* ---------- Go primitives ---------- *)
+Lemma unpack_uint16_cons hi lo r : unpack_uint16 (hi :: lo :: r) = Ok (hi * 256 + lo).
+Proof. reflexivity. Qed.
+
+Lemma slice_from_ok b a : (a <= length b)%nat -> slice_from b a = Ok (skipn a b).
+Proof.
+  intros H. unfold slice_from. destruct (Nat.leb a (length b)) eqn:E; [reflexivity|].
+  apply Nat.leb_gt in E. lia.
+Qed.
+
+Lemma slice_ok b a z : (a <= z)%nat -> (z <= length b)%nat ->
+  slice b a z = Ok (firstn (z - a) (skipn a b)).
+Proof.
+  intros H1 H2. unfold slice. apply Nat.leb_le in H1. apply Nat.leb_le in H2.
+  rewrite H1, H2. reflexivity.
+Qed.
+
+(* ---------- the rune decoder: a bad rune comes only from a zero byte ---------- *)
+Lemma decode_runes_cons b0 r :
+  decode_runes (b0 :: r) =
+      if b0 <? 128 then b0 :: decode_runes r else
+      let err := RuneError :: decode_runes r in
+      match r with
+      | [] => err
+      | b1 :: r1 =>
+          if (192 <=? b0) && (b0 <? 224) then
+            if cont b1 then
+              let rn := (b0 mod 32) * 64 + b1 mod 64 in
+              if 127 <? rn then rn :: decode_runes r1 else err
+            else err
+          else if (224 <=? b0) && (b0 <? 240) then
+            match r1 with
+            | [] => err
+            | b2 :: r2 =>
+                if cont b1 && cont b2 then
+                  let rn := (b0 mod 16) * 4096 + (b1 mod 64) * 64 + b2 mod 64 in
+                  if (2047 <? rn) && negb ((55296 <=? rn) && (rn <=? 57343)) then rn :: decode_runes r2 else err
+                else err
+            end
+          else if (240 <=? b0) && (b0 <? 248) then
+            match r1 with
+            | b2 :: b3 :: r3 =>
+                if cont b1 && cont b2 && cont b3 then
+                  let rn := (b0 mod 8) * 262144 + (b1 mod 64) * 4096 + (b2 mod 64) * 64 + b3 mod 64 in
+                  if (65535 <? rn) && (rn <=? 1114111) then rn :: decode_runes r3 else err
+                else err
+            | _ => err
+            end
+          else err
+      end.
+Proof. reflexivity. Qed.
+
+Lemma cont_nonzero b : cont b = true -> (0 =? b) = false.
+Proof. unfold cont. lia. Qed.
+
+Lemma existsb_bad_cons rn x (y : bool) : bad_rune rn = false -> existsb bad_rune x = y ->
+  existsb bad_rune (rn :: x) = y.
+Proof. intros H <-. cbn [existsb]. rewrite H. reflexivity. Qed.
+
+Lemma decode_runes_bad_aux : forall n s, (length s <= n)%nat ->
+  existsb bad_rune (decode_runes s) = existsb (N.eqb 0) s.
+Proof.
+  induction n as [|n IH]; intros s Hl.
+  { destruct s; [reflexivity | cbn [length] in Hl; lia]. }
+  destruct s as [|b0 r]; [reflexivity|].
+  cbn [length] in Hl.
+  rewrite decode_runes_cons.
+  destruct (b0 <? 128) eqn:E0.
+  { cbn [existsb]. rewrite (IH r) by lia. f_equal. unfold bad_rune. lia. }
+  assert (Herr : existsb bad_rune (RuneError :: decode_runes r) = existsb (N.eqb 0) (b0 :: r)).
+  { cbn [existsb]. rewrite (IH r) by lia.
+    replace (0 =? b0) with false by lia. reflexivity. }
+  cbv zeta.
+  destruct r as [|b1 r1]; [exact Herr|].
+  cbn [length] in Hl.
+  destruct ((192 <=? b0) && (b0 <? 224)) eqn:E2.
+  { destruct (cont b1) eqn:C1; [|exact Herr].
+    destruct (127 <? b0 mod 32 * 64 + b1 mod 64) eqn:R; [|exact Herr].
+    apply existsb_bad_cons; [unfold bad_rune; lia|].
+    rewrite (IH r1) by lia. cbn [existsb].
+    rewrite (cont_nonzero _ C1). replace (0 =? b0) with false by lia. reflexivity. }
+  destruct ((224 <=? b0) && (b0 <? 240)) eqn:E3.
+  { destruct r1 as [|b2 r2]; [exact Herr|]. cbn [length] in Hl.
+    destruct (cont b1 && cont b2) eqn:C; [|exact Herr].
+    apply andb_true_iff in C as [C1 C2].
+    destruct ((2047 <? b0 mod 16 * 4096 + b1 mod 64 * 64 + b2 mod 64) &&
+              negb ((55296 <=? b0 mod 16 * 4096 + b1 mod 64 * 64 + b2 mod 64) &&
+                    (b0 mod 16 * 4096 + b1 mod 64 * 64 + b2 mod 64 <=? 57343))) eqn:R; [|exact Herr].
+    apply existsb_bad_cons; [unfold bad_rune; lia|].
+    rewrite (IH r2) by lia. cbn [existsb].
+    rewrite (cont_nonzero _ C1), (cont_nonzero _ C2). replace (0 =? b0) with false by lia. reflexivity. }
+  destruct ((240 <=? b0) && (b0 <? 248)) eqn:E4; [|exact Herr].
+  destruct r1 as [|b2 [|b3 r3]]; [exact Herr|exact Herr|]. cbn [length] in Hl.
+  destruct (cont b1 && cont b2 && cont b3) eqn:C; [|exact Herr].
+  apply andb_true_iff in C as [C C3]. apply andb_true_iff in C as [C1 C2].
+  destruct ((65535 <? b0 mod 8 * 262144 + b1 mod 64 * 4096 + b2 mod 64 * 64 + b3 mod 64) &&
+            (b0 mod 8 * 262144 + b1 mod 64 * 4096 + b2 mod 64 * 64 + b3 mod 64 <=? 1114111)) eqn:R;
+    [|exact Herr].
+  apply existsb_bad_cons; [unfold bad_rune; lia|].
+  rewrite (IH r3) by lia. cbn [existsb].
+  rewrite (cont_nonzero _ C1), (cont_nonzero _ C2), (cont_nonzero _ C3).
+  replace (0 =? b0) with false by lia. reflexivity.
+Qed.
+
+Lemma decode_runes_bad s : existsb bad_rune (decode_runes s) = existsb (N.eqb 0) s.
+Proof. apply (decode_runes_bad_aux (length s)). lia. Qed.
+
+(* ---------- unpackString and the parsers in closed form ---------- *)
+Lemma topic_of_some body t r : topic_of body = Some (t, r) ->
+  exists hi lo, body = hi :: lo :: t ++ r.
+Proof.
+  unfold topic_of. destruct body as [|hi [|lo r0]]; try discriminate.
+  cbv zeta. destruct (Nat.leb (N.to_nat (hi * 256 + lo)) (length r0)) eqn:E; [|discriminate].
+  intros H. injection H as <- <-.
+  exists hi, lo. rewrite firstn_skipn. reflexivity.
+Qed.
+
+Lemma unpack_string_spec b :
+  unpack_string b =
+  match topic_of b with
+  | None => Err EInvalidPacketLength
+  | Some (t, r) => if existsb (N.eqb 0) t then Err EInvalidRune
+                   else Ok ((length t + 2)%nat, encode_runes (decode_runes t))
+  end.
+Proof.
+  destruct b as [|hi [|lo r]]; [reflexivity | reflexivity |].
+  unfold unpack_string, topic_of.
+  change (Nat.ltb (length (hi :: lo :: r)) 2) with false. cbv iota.
+  rewrite unpack_uint16_cons. cbn [rbind]. cbv zeta.
+  set (n := N.to_nat (hi * 256 + lo)).
+  cbn [length].
+  destruct (Nat.leb n (length r)) eqn:E.
+  - apply Nat.leb_le in E.
+    destruct (Nat.ltb (S (S (length r))) (n + 2)) eqn:E2; [apply Nat.ltb_lt in E2; lia|].
+    rewrite slice_ok by (cbn [length]; lia).
+    cbn [rbind]. replace (n + 2 - 2)%nat with n by lia. cbn [skipn].
+    rewrite decode_runes_bad.
+    rewrite (firstn_length_le r E).
+    reflexivity.
+  - apply Nat.leb_gt in E.
+    destruct (Nat.ltb (S (S (length r))) (n + 2)) eqn:E2; [reflexivity|].
+    apply Nat.ltb_ge in E2. lia.
+Qed.
+
+Lemma skipn_topic (hi lo : N) t r : skipn (length t + 2) (hi :: lo :: t ++ r) = r.
+Proof.
+  replace (length t + 2)%nat with (S (S (length t))) by lia. cbn [skipn].
+  rewrite skipn_app, skipn_all, Nat.sub_diag. reflexivity.
+Qed.
+
+Lemma skipn_topic2 (hi lo a c : N) t p : skipn (length t + 2 + 2) (hi :: lo :: t ++ a :: c :: p) = p.
+Proof.
+  replace (t ++ a :: c :: p) with ((t ++ [a; c]) ++ p) by (rewrite <- app_assoc; reflexivity).
+  replace (length t + 2 + 2)%nat with (S (S (length (t ++ [a; c])))) by (rewrite app_length; cbn [length]; lia).
+  cbn [skipn]. rewrite skipn_app, skipn_all, Nat.sub_diag. reflexivity.
+Qed.
+
+Lemma parse_publish_spec flag body :
+  parse_publish flag body =
+  let q := (flag / 2) mod 4 in
+  if q =? 3 then Err EInvalidPacket else
+  match topic_of body with
+  | None => Err EInvalidPacketLength
+  | Some (t, r) =>
+      if existsb (N.eqb 0) t then Err EInvalidRune else
+      if q =? 0 then
+        Ok {| m_topic := encode_runes (decode_runes t); m_id := 0; m_qos := q;
+              m_retain := N.odd flag; m_dup := N.odd (flag / 8); m_payload := r |}
+      else match r with
+           | a :: c :: p =>
+               Ok {| m_topic := encode_runes (decode_runes t); m_id := a * 256 + c; m_qos := q;
+                     m_retain := N.odd flag; m_dup := N.odd (flag / 8); m_payload := p |}
+           | _ => Err EInvalidPacketLength
+           end
+  end.
+Proof.
+  unfold parse_publish. cbv zeta.
+  destruct ((flag / 2) mod 4 =? 3) eqn:E3; [reflexivity|].
+  rewrite unpack_string_spec.
+  destruct (topic_of body) as [[t r]|] eqn:Et; [|reflexivity].
+  destruct (existsb (N.eqb 0) t) eqn:Ez; [reflexivity|].
+  cbn [rbind].
+  apply topic_of_some in Et. destruct Et as (hi & lo & ->).
+  assert (Hlen : length (hi :: lo :: t ++ r) = (length t + 2 + length r)%nat).
+  { cbn [length]. rewrite app_length. lia. }
+  destruct ((flag / 2) mod 4 =? 0) eqn:E0.
+  - rewrite slice_from_ok by lia. cbn [rbind]. rewrite skipn_topic. reflexivity.
+  - replace (length (hi :: lo :: t ++ r) - (length t + 2))%nat with (length r) by lia.
+    destruct r as [|a [|c p]]; [reflexivity | reflexivity |].
+    change (Nat.ltb (length (a :: c :: p)) 2) with false. cbv iota.
+    rewrite slice_from_ok by lia. cbn [rbind]. rewrite skipn_topic.
+    rewrite unpack_uint16_cons. cbn [rbind].
+    rewrite slice_from_ok by (rewrite Hlen; cbn [length]; lia). cbn [rbind]. rewrite skipn_topic2. reflexivity.
+Qed.
+
+(* ---------- every parser either returns a value or a protocol error, decided by a test ---------- *)
+Definition classifies {A} (bad : bool) (r : res A) : Prop :=
+  if bad then exists e, r = Err e /\ protocol_error e else exists v, r = Ok v.
+
+Lemma classifies_no_panic {A} bad (r : res A) : classifies bad r -> r <> Panic.
+Proof. destruct bad; cbn [classifies]; [intros (e & -> & _) | intros (v & ->)]; discriminate. Qed.
+
+Lemma cl_err {A} (e : perr) : protocol_error e -> classifies (A := A) true (Err e).
+Proof. intros H. exists e. split; [reflexivity | exact H]. Qed.
+
+Lemma cl_ok {A} (v : A) : classifies false (Ok v).
+Proof. exists v. reflexivity. Qed.
+
+Lemma pe1 : protocol_error EInvalidPacket. Proof. left. reflexivity. Qed.
+Lemma pe2 : protocol_error EInvalidPacketLength. Proof. right. left. reflexivity. Qed.
+Lemma pe3 : protocol_error EInvalidRune. Proof. right. right. reflexivity. Qed.
+
+Lemma classifies_bind {A B} bad (r : res A) (k : A -> res B) :
+  classifies bad r -> (forall a, exists v, k a = Ok v) -> classifies bad (rbind r k).
+Proof.
+  destruct bad; cbn [classifies].
+  - intros (e & -> & He) _. exists e. split; [reflexivity | exact He].
+  - intros (v & ->) Hk. cbn [rbind]. apply Hk.
+Qed.
+
+Lemma parse_connack_cl flag body :
+  classifies (negb (flag =? 0) || negb (Nat.eqb (length body) 2)) (parse_connack flag body).
+Proof.
+  unfold parse_connack.
+  destruct (negb (flag =? 0)); cbn [orb]; [apply cl_err, pe1|].
+  destruct (negb (Nat.eqb (length body) 2)) eqn:E; [apply cl_err, pe2|].
+  destruct body as [|a [|c [|d r]]]; try discriminate. apply cl_ok.
+Qed.
+
+Lemma parse_id_only_cl w flag body :
+  classifies (negb (flag =? w) || Nat.ltb (length body) 2) (parse_id_only w flag body).
+Proof.
+  unfold parse_id_only.
+  destruct (negb (flag =? w)); cbn [orb]; [apply cl_err, pe1|].
+  destruct (Nat.ltb (length body) 2) eqn:E; [apply cl_err, pe2|].
+  destruct body as [|a [|c r]]; try discriminate. rewrite unpack_uint16_cons. apply cl_ok.
+Qed.
+
+Lemma parse_suback_cl flag body :
+  classifies (negb (flag =? 0) || Nat.ltb (length body) 2) (parse_suback flag body).
+Proof.
+  unfold parse_suback.
+  destruct (negb (flag =? 0)); cbn [orb]; [apply cl_err, pe1|].
+  destruct (Nat.ltb (length body) 2) eqn:E; [apply cl_err, pe2|].
+  destruct body as [|a [|c r]]; try discriminate. rewrite unpack_uint16_cons. apply cl_ok.
+Qed.
+
+Lemma parse_pingresp_cl flag body : classifies (negb (flag =? 0)) (parse_pingresp flag body).
+Proof.
+  unfold parse_pingresp. destruct (negb (flag =? 0)); [apply cl_err, pe1 | apply cl_ok].
+Qed.
+
+Lemma parse_publish_cl flag body :
+  classifies (let q := (flag / 2) mod 4 in
+              (q =? 3)
+              || match topic_of body with
+                 | None => true
+                 | Some (t, r) => existsb (N.eqb 0) t || (negb (q =? 0) && Nat.ltb (length r) 2)
+                 end)
+             (parse_publish flag body).
+Proof.
+  rewrite parse_publish_spec. cbv zeta.
+  destruct ((flag / 2) mod 4 =? 3); cbn [orb]; [apply cl_err, pe1|].
+  destruct (topic_of body) as [[t r]|]; [|apply cl_err, pe2].
+  destruct (existsb (N.eqb 0) t); cbn [orb]; [apply cl_err, pe3|].
+  destruct ((flag / 2) mod 4 =? 0); cbn [negb andb]; [apply cl_ok|].
+  destruct r as [|a [|c p]]; [apply cl_err, pe2 | apply cl_err, pe2 | apply cl_ok].
+Qed.
+
+(* ---------- no parser panics ---------- *)
+Theorem unpack_string_no_panic b : unpack_string b <> Panic.
+Proof.
+  rewrite unpack_string_spec. destruct (topic_of b) as [[t r]|]; [|discriminate].
+  destruct (existsb (N.eqb 0) t); discriminate.
+Qed.
+
+Theorem parsers_no_panic flag body :
+  parse_connack flag body <> Panic /\ parse_publish flag body <> Panic /\
+  parse_puback flag body <> Panic /\ parse_pubrec flag body <> Panic /\
+  parse_pubrel flag body <> Panic /\ parse_pubcomp flag body <> Panic /\
+  parse_suback flag body <> Panic /\ parse_unsuback flag body <> Panic /\
+  parse_pingresp flag body <> Panic.
+Proof.
+  repeat split.
+  - exact (classifies_no_panic _ _ (parse_connack_cl flag body)).
+  - exact (classifies_no_panic _ _ (parse_publish_cl flag body)).
+  - exact (classifies_no_panic _ _ (parse_id_only_cl 0 flag body)).
+  - exact (classifies_no_panic _ _ (parse_id_only_cl 0 flag body)).
+  - exact (classifies_no_panic _ _ (parse_id_only_cl 2 flag body)).
+  - exact (classifies_no_panic _ _ (parse_id_only_cl 0 flag body)).
+  - exact (classifies_no_panic _ _ (parse_suback_cl flag body)).
+  - exact (classifies_no_panic _ _ (parse_id_only_cl 0 flag body)).
+  - exact (classifies_no_panic _ _ (parse_pingresp_cl flag body)).
+Qed.
+
+(* ---------- dispatch ---------- *)
+Lemma typ_cases (typ : N) :
+  typ = 2 \/ typ = 3 \/ typ = 4 \/ typ = 5 \/ typ = 6 \/ typ = 7 \/ typ = 9 \/ typ = 11 \/ typ = 13 \/
+  ((forall h sb flag body, dispatch h sb typ flag body = Err EInvalidPacket) /\
+   (forall flag body, malformed typ flag body = true)).
+Proof.
+  destruct typ as [|p].
+  { repeat right. split; intros; reflexivity. }
+  do 4 (try destruct p as [p|p|]);
+    repeat (first [left; reflexivity | right]); split; intros; reflexivity.
+Qed.
+
+Lemma step_ok h sb p : exists v, (let '(sb', ev) := serve_in_step h sb p in
+                                  Ok (E := perr) (sb', lift_in ev)) = Ok v.
+Proof. destruct (serve_in_step h sb p) as [sb' ev]. eexists. reflexivity. Qed.
+
+Lemma dispatch_classified h sb typ flag body :
+  classifies (malformed typ flag body) (dispatch h sb typ flag body).
+Proof.
+  destruct (typ_cases typ) as [-> | [-> | [-> | [-> | [-> | [-> | [-> | [-> | [-> | [Hd Hm]]]]]]]]]].
+  - apply classifies_bind; [apply parse_connack_cl | intros a; eexists; reflexivity].
+  - apply classifies_bind; [apply parse_publish_cl | intros a; apply step_ok].
+  - apply classifies_bind; [apply (parse_id_only_cl 0) | intros a; eexists; reflexivity].
+  - apply classifies_bind; [apply (parse_id_only_cl 0) | intros a; eexists; reflexivity].
+  - apply classifies_bind; [apply (parse_id_only_cl 2) | intros a; apply step_ok].
+  - apply classifies_bind; [apply (parse_id_only_cl 0) | intros a; eexists; reflexivity].
+  - apply classifies_bind; [apply parse_suback_cl | intros a; eexists; reflexivity].
+  - apply classifies_bind; [apply (parse_id_only_cl 0) | intros a; eexists; reflexivity].
+  - apply classifies_bind; [apply parse_pingresp_cl | intros a; eexists; reflexivity].
+  - rewrite Hd, Hm. apply cl_err, pe1.
+Qed.
+
+Theorem dispatch_no_panic h sb typ flag body : dispatch h sb typ flag body <> Panic.
+Proof. exact (classifies_no_panic _ _ (dispatch_classified h sb typ flag body)). Qed.
+
+(* malformed packets, as the property lists them (independent of the parsers) *)
 Theorem dispatch_malformed h sb typ flag body : malformed typ flag body = true ->
   exists e, dispatch h sb typ flag body = Err e /\ protocol_error e.
-Proof. Admitted.
+Proof.
+  intros H. pose proof (dispatch_classified h sb typ flag body) as Hc. rewrite H in Hc. exact Hc.
+Qed.
 
 Theorem dispatch_wellformed h sb typ flag body : malformed typ flag body = false ->
   exists sb' ev, dispatch h sb typ flag body = Ok (sb', ev).
-Proof. Admitted.
+Proof.
+  intros H. pose proof (dispatch_classified h sb typ flag body) as Hc. rewrite H in Hc.
+  destruct Hc as ([sb' ev] & Hv). exists sb', ev. exact Hv.
+Qed.
 
+Definition no_alloc (ev : list sv_event) : Prop := forall n, ~ In (EvAlloc n) ev.
+
+Lemma no_alloc_ack t id : no_alloc [EvAck t id].
+Proof. intros n [H|[]]. discriminate. Qed.
+
+Lemma no_alloc_lift es : no_alloc (lift_in es).
+Proof. intros n H. unfold lift_in in H. apply in_map_iff in H. destruct H as (x & Hx & _). discriminate. Qed.
+
+Lemma dispatch_no_alloc h sb typ flag body sb' ev :
+  dispatch h sb typ flag body = Ok (sb', ev) -> no_alloc ev.
+Proof.
+  destruct (typ_cases typ) as [-> | [-> | [-> | [-> | [-> | [-> | [-> | [-> | [-> | [Hd Hm]]]]]]]]]];
+    [ | | | | | | | | | rewrite Hd; discriminate ];
+    unfold dispatch; cbv beta iota;
+    match goal with |- rbind ?p _ = _ -> _ => destruct p as [v|e|] end; cbn [rbind]; try discriminate;
+    try (destruct (serve_in_step _ _ _) as [sb1 ev1]);
+    intros H; injection H as <- <-; first [apply no_alloc_ack | apply no_alloc_lift].
+Qed.
+
+(* ---------- readPacket ---------- *)
+Lemma read_len_eq k acc cur rest :
+  read_len k acc cur rest =
+  if cur <? 128 then Ok (acc + (cur mod 128) * 2 ^ (7 * k), rest)
+  else if 3 <=? k then Err EInvalidPacketLength
+  else match rest with
+       | [] => Err EEOF
+       | b :: r => read_len (k + 1) (acc + (cur mod 128) * 2 ^ (7 * k)) b r
+       end.
+Proof. destruct rest; reflexivity. Qed.
+
+Lemma read_len_0 cur rest :
+  read_len 0 0 cur rest =
+  if cur <? 128 then Ok (cur mod 128, rest)
+  else match rest with [] => Err EEOF | b :: r => read_len 1 (cur mod 128) b r end.
+Proof.
+  rewrite read_len_eq. change (2 ^ (7 * 0)) with 1. change (3 <=? 0) with false. change (0 + 1) with 1.
+  rewrite N.mul_1_r, N.add_0_l. reflexivity.
+Qed.
+
+Lemma read_len_1 acc cur rest :
+  read_len 1 acc cur rest =
+  if cur <? 128 then Ok (acc + cur mod 128 * 128, rest)
+  else match rest with [] => Err EEOF | b :: r => read_len 2 (acc + cur mod 128 * 128) b r end.
+Proof.
+  rewrite read_len_eq. change (2 ^ (7 * 1)) with 128. change (3 <=? 1) with false. change (1 + 1) with 2.
+  reflexivity.
+Qed.
+
+Lemma read_len_2 acc cur rest :
+  read_len 2 acc cur rest =
+  if cur <? 128 then Ok (acc + cur mod 128 * 16384, rest)
+  else match rest with [] => Err EEOF | b :: r => read_len 3 (acc + cur mod 128 * 16384) b r end.
+Proof.
+  rewrite read_len_eq. change (2 ^ (7 * 2)) with 16384. change (3 <=? 2) with false. change (2 + 1) with 3.
+  reflexivity.
+Qed.
+
+Lemma read_len_3 acc cur rest :
+  read_len 3 acc cur rest =
+  if cur <? 128 then Ok (acc + cur mod 128 * 2097152, rest) else Err EInvalidPacketLength.
+Proof.
+  rewrite read_len_eq. change (2 ^ (7 * 3)) with 2097152. change (3 <=? 3) with true. reflexivity.
+Qed.
+
+Lemma read_len_bound cur rest n r1 : read_len 0 0 cur rest = Ok (n, r1) ->
+  n <= 268435455 /\ (length r1 <= length rest)%nat.
+Proof.
+  rewrite read_len_0. destruct (cur <? 128) eqn:E0.
+  { intros H. injection H as <- <-. split; lia. }
+  destruct rest as [|b1 r]; [discriminate|]. rewrite read_len_1. destruct (b1 <? 128) eqn:E1.
+  { intros H. injection H as <- <-. cbn [length]. split; lia. }
+  destruct r as [|b2 r]; [discriminate|]. rewrite read_len_2. destruct (b2 <? 128) eqn:E2.
+  { intros H. injection H as <- <-. cbn [length]. split; lia. }
+  destruct r as [|b3 r]; [discriminate|]. rewrite read_len_3. destruct (b3 <? 128) eqn:E3; [|discriminate].
+  intros H. injection H as <- <-. cbn [length]. split; lia.
+Qed.
+
+Lemma read_len_no_panic cur rest : read_len 0 0 cur rest <> Panic.
+Proof.
+  rewrite read_len_0. destruct (cur <? 128); [discriminate|].
+  destruct rest as [|b1 r]; [discriminate|]. rewrite read_len_1. destruct (b1 <? 128); [discriminate|].
+  destruct r as [|b2 r]; [discriminate|]. rewrite read_len_2. destruct (b2 <? 128); [discriminate|].
+  destruct r as [|b3 r]; [discriminate|]. rewrite read_len_3. destruct (b3 <? 128); discriminate.
+Qed.
+
+Lemma read_full_no_panic n s : n <= 268435455 -> read_full n s <> Panic.
+Proof.
+  intros Hn. unfold read_full. change (2 ^ 47) with 140737488355328.
+  destruct (140737488355328 <? n) eqn:E; [lia|].
+  destruct (n =? 0); [discriminate|]. destruct s as [|x s]; [discriminate|].
+  destruct (N.of_nat (length (x :: s)) <? n); discriminate.
+Qed.
+
+Lemma read_full_length n s body rest : read_full n s = Ok (body, rest) -> (length rest <= length s)%nat.
+Proof.
+  unfold read_full. destruct (2 ^ 47 <? n); [discriminate|].
+  destruct (n =? 0). { intros H. injection H as <- <-. lia. }
+  destruct s as [|x s]; [discriminate|].
+  destruct (N.of_nat (length (x :: s)) <? n); [discriminate|].
+  intros H. injection H as <- <-. rewrite skipn_length. lia.
+Qed.
+
+Lemma read_packet_cons2 h l0 r :
+  read_packet (h :: l0 :: r) =
+  match read_len 0 0 l0 r with
+  | Ok (n, r1) =>
+      match read_full n r1 with
+      | Ok (body, rest) => (RP_ok (h / 16) (h mod 16) body rest, Some n)
+      | Err e => (RP_err e, Some n)
+      | Panic => (RP_panic, Some n)
+      end
+  | Err e => (RP_err e, None)
+  | Panic => (RP_panic, None)
+  end.
+Proof. reflexivity. Qed.
+
+Theorem read_packet_no_panic s : fst (read_packet s) <> RP_panic.
+Proof.
+  destruct s as [|h [|l0 r]]; [discriminate | discriminate |].
+  rewrite read_packet_cons2.
+  pose proof (read_len_no_panic l0 r) as Hnp.
+  destruct (read_len 0 0 l0 r) as [[n r1]|e|] eqn:E; [|discriminate|congruence].
+  apply read_len_bound in E. destruct E as [Hn _].
+  pose proof (read_full_no_panic n r1 Hn) as Hf.
+  destruct (read_full n r1) as [[body rest]|e|]; [discriminate | discriminate | congruence].
+Qed.
+
+(* the body buffer requested from make() never exceeds the protocol maximum *)
+Theorem read_packet_alloc_bound s n : snd (read_packet s) = Some n -> n <= max_packet.
+Proof.
+  destruct s as [|h [|l0 r]]; [discriminate | discriminate |].
+  rewrite read_packet_cons2.
+  destruct (read_len 0 0 l0 r) as [[m r1]|e|] eqn:E; [|discriminate|discriminate].
+  apply read_len_bound in E. destruct E as [Hm _].
+  unfold max_packet.
+  destruct (read_full m r1) as [[body rest]|e|]; cbn [snd]; intros H; injection H as <-; exact Hm.
+Qed.
+
+Lemma read_packet_shrinks s typ flag body rest a :
+  read_packet s = (RP_ok typ flag body rest, a) -> (length rest + 2 <= length s)%nat.
+Proof.
+  destruct s as [|h [|l0 r]]; [discriminate | discriminate |].
+  rewrite read_packet_cons2.
+  destruct (read_len 0 0 l0 r) as [[m r1]|e|] eqn:E; [|discriminate|discriminate].
+  apply read_len_bound in E. destruct E as [_ Hl].
+  destruct (read_full m r1) as [[body' rest']|e|] eqn:F; try discriminate.
+  intros H. injection H as _ _ _ <- _. apply read_full_length in F. cbn [length]. lia.
+Qed.
+
+(* the encoder's length field, read back *)
+Ltac rlen_cases n :=
+  destruct (n <=? 127) eqn:E1;
+  [|destruct (n <=? 16383) eqn:E2;
+    [|destruct (n <=? 2097151) eqn:E3;
+      [|destruct (n <=? 268435455) eqn:E4]]].
+
+Lemma read_len_varint n rl : remaining_length n = Some rl ->
+  exists a rl', rl = a :: rl' /\ forall r, read_len 0 0 a (rl' ++ r) = Ok (n, r).
+Proof.
+  unfold remaining_length. intros H.
+  rlen_cases n; try discriminate; injection H as <-; eexists; eexists; (split; [reflexivity|]);
+    intros r; cbn [app].
+  - rewrite read_len_0. destruct (n <? 128) eqn:B0; [|lia]. f_equal. f_equal. lia.
+  - rewrite read_len_0. destruct (n mod 128 + 128 <? 128) eqn:B0; [lia|].
+    rewrite read_len_1. destruct (n / 128 mod 128 <? 128) eqn:B1; [|lia]. f_equal. f_equal. lia.
+  - rewrite read_len_0. destruct (n mod 128 + 128 <? 128) eqn:B0; [lia|].
+    rewrite read_len_1. destruct (n / 128 mod 128 + 128 <? 128) eqn:B1; [lia|].
+    rewrite read_len_2. destruct (n / 16384 mod 128 <? 128) eqn:B2; [|lia]. f_equal. f_equal. lia.
+  - rewrite read_len_0. destruct (n mod 128 + 128 <? 128) eqn:B0; [lia|].
+    rewrite read_len_1. destruct (n / 128 mod 128 + 128 <? 128) eqn:B1; [lia|].
+    rewrite read_len_2. destruct (n / 16384 mod 128 + 128 <? 128) eqn:B2; [lia|].
+    rewrite read_len_3. destruct (n / 2097152 mod 128 <? 128) eqn:B3; [|lia]. f_equal. f_equal. lia.
+Qed.
+
+(* a strict prefix of the length field ends the stream inside it *)
+Lemma read_len_varint_trunc n a rl' pre suf : remaining_length n = Some (a :: rl') ->
+  rl' = pre ++ suf -> suf <> [] -> read_len 0 0 a pre = Err EEOF.
+Proof.
+  unfold remaining_length. intros H Hs Hne.
+  assert (Hlen : (length pre < length rl')%nat).
+  { rewrite Hs, app_length. destruct suf; [congruence | cbn [length]; lia]. }
+  rlen_cases n; try discriminate; injection H as <- <-; cbn [length] in Hlen.
+  - lia.
+  - destruct pre as [|p0 pre]; [|cbn [length] in Hlen; lia].
+    rewrite read_len_0. destruct (n mod 128 + 128 <? 128) eqn:B0; [lia|]. reflexivity.
+  - rewrite read_len_0. destruct (n mod 128 + 128 <? 128) eqn:B0; [lia|].
+    destruct pre as [|p0 pre]; [reflexivity|]. injection Hs as <- Hs.
+    rewrite read_len_1. destruct (n / 128 mod 128 + 128 <? 128) eqn:B1; [lia|].
+    destruct pre as [|p1 pre]; [reflexivity | cbn [length] in Hlen; lia].
+  - rewrite read_len_0. destruct (n mod 128 + 128 <? 128) eqn:B0; [lia|].
+    destruct pre as [|p0 pre]; [reflexivity|]. injection Hs as <- Hs.
+    rewrite read_len_1. destruct (n / 128 mod 128 + 128 <? 128) eqn:B1; [lia|].
+    destruct pre as [|p1 pre]; [reflexivity|]. injection Hs as <- Hs.
+    rewrite read_len_2. destruct (n / 16384 mod 128 + 128 <? 128) eqn:B2; [lia|].
+    destruct pre as [|p2 pre]; [reflexivity | cbn [length] in Hlen; lia].
+Qed.
+
+Lemma len_zero_nil (body : list N) : len body = 0 -> body = [].
+Proof. destruct body; [reflexivity|]. unfold len. cbn [length]. lia. Qed.
+
+Lemma read_full_exact body rest : len body <= 268435455 ->
+  read_full (len body) (body ++ rest) = Ok (body, rest).
+Proof.
+  intros Hb. unfold read_full. change (2 ^ 47) with 140737488355328.
+  destruct (140737488355328 <? len body) eqn:E1; [lia|].
+  destruct (len body =? 0) eqn:E0.
+  { apply N.eqb_eq in E0. apply len_zero_nil in E0. subst body. reflexivity. }
+  destruct body as [|x body]; [unfold len in E0; cbn [length] in E0; lia|].
+  cbn [app]. change (x :: body ++ rest) with ((x :: body) ++ rest).
+  unfold len. rewrite app_length.
+  destruct (N.of_nat (length (x :: body) + length rest) <? N.of_nat (length (x :: body))) eqn:E2; [lia|].
+  rewrite Nat2N.id, firstn_app, skipn_app, Nat.sub_diag, firstn_all, skipn_all.
+  cbn [firstn skipn app]. rewrite app_nil_r. reflexivity.
+Qed.
+
+Lemma read_full_trunc b pre suf : b = pre ++ suf -> suf <> [] -> len b <= 268435455 ->
+  exists e, (e = EEOF \/ e = EUnexpectedEOF) /\ read_full (len b) pre = Err e.
+Proof.
+  intros Hb Hs Hl. unfold read_full. change (2 ^ 47) with 140737488355328.
+  assert (Hlt : N.of_nat (length pre) < len b).
+  { unfold len. rewrite Hb, app_length. destruct suf; [congruence | cbn [length]; lia]. }
+  destruct (140737488355328 <? len b) eqn:E1; [lia|].
+  destruct (len b =? 0) eqn:E0; [lia|].
+  destruct pre as [|p pre]. { exists EEOF. split; [left|]; reflexivity. }
+  destruct (N.of_nat (length (p :: pre)) <? len b) eqn:E2; [|lia].
+  exists EUnexpectedEOF. split; [right|]; reflexivity.
+Qed.
+
+Lemma pack_inv hd body b : pack hd body = Some b ->
+  exists rl, remaining_length (len body) = Some rl /\ b = hd :: rl ++ body /\ len body <= 268435455.
+Proof.
+  unfold pack. rewrite remaining_length_go_eq.
+  destruct (remaining_length (len body)) as [rl|] eqn:E; [|discriminate].
+  intros H. apply some_inj in H. subst b. exists rl. split; [reflexivity|]. split; [reflexivity|].
+  apply varint_defined_iff. exists rl. exact E.
+Qed.
+
+(* a frame produced with the encoder's length field is read back exactly, for every body length
+   the protocol allows *)
+Theorem read_packet_frame typ flag body b rest : typ < 16 -> flag < 16 ->
+  pack (typ * 16 + flag) body = Some b ->
+  read_packet (b ++ rest) = (RP_ok typ flag body rest, Some (len body)).
+Proof.
+  intros Ht Hf Hp. apply pack_inv in Hp. destruct Hp as (rl & Hrl & -> & Hb).
+  apply read_len_varint in Hrl. destruct Hrl as (a & rl' & -> & Hrl).
+  cbn [app]. rewrite <- app_assoc. rewrite read_packet_cons2, Hrl, read_full_exact by exact Hb.
+  replace ((typ * 16 + flag) / 16) with typ by lia.
+  replace ((typ * 16 + flag) mod 16) with flag by lia.
+  reflexivity.
+Qed.
+
+(* a length field whose fourth byte still has the continuation bit is rejected *)
+Theorem read_packet_overlong h c1 c2 c3 c4 rest :
+  128 <= c1 -> 128 <= c2 -> 128 <= c3 -> 128 <= c4 ->
+  read_packet (h :: c1 :: c2 :: c3 :: c4 :: rest) = (RP_err EInvalidPacketLength, None).
+Proof.
+  intros H1 H2 H3 H4. rewrite read_packet_cons2.
+  rewrite read_len_0. destruct (c1 <? 128) eqn:B1; [lia|].
+  rewrite read_len_1. destruct (c2 <? 128) eqn:B2; [lia|].
+  rewrite read_len_2. destruct (c3 <? 128) eqn:B3; [lia|].
+  rewrite read_len_3. destruct (c4 <? 128) eqn:B4; [lia|]. reflexivity.
+Qed.
+
+(* a packet cut anywhere before its last byte *)
+Lemma read_packet_trunc hd b x pre suf : pack hd b = Some x -> x = pre ++ suf -> suf <> [] ->
+  exists e, (e = EEOF \/ e = EUnexpectedEOF) /\
+    (read_packet pre = (RP_err e, None) \/ read_packet pre = (RP_err e, Some (len b))).
+Proof.
+  intros Hp Hx Hs. apply pack_inv in Hp. destruct Hp as (rl & Hrl & -> & Hb).
+  destruct (read_len_varint _ _ Hrl) as (a & rl' & -> & Hread).
+  destruct pre as [|p0 pre]. { exists EEOF. split; [left|left]; reflexivity. }
+  destruct pre as [|p1 pre]. { exists EUnexpectedEOF. split; [right|left]; reflexivity. }
+  cbn [app] in Hx. injection Hx as <- <- Hx.
+  rewrite read_packet_cons2.
+  apply app_eq_app in Hx. destruct Hx as (l & [[H1 H2] | [H1 H2]]).
+  - destruct l as [|y l].
+    + rewrite app_nil_r in H1. subst rl'. cbn [app] in H2. subst suf.
+      rewrite <- (app_nil_r pre), Hread.
+      destruct (read_full_trunc b [] b eq_refl Hs Hb) as (e & He & Hf).
+      exists e. split; [exact He|]. right. rewrite Hf. reflexivity.
+    + rewrite (read_len_varint_trunc _ _ _ _ _ Hrl H1) by discriminate.
+      exists EEOF. split; [left|left]; reflexivity.
+  - subst pre. rewrite Hread.
+    destruct (read_full_trunc b l suf H2 Hs Hb) as (e & He & Hf).
+    exists e. split; [exact He|]. right. rewrite Hf. reflexivity.
+Qed.
+
+(* ---------- the serve loop ---------- *)
+Lemma serve_stream_no_panic f : forall h sb s, snd (serve_stream f h sb s) <> EndPanic.
+Proof.
+  induction f as [|f IH]; intros h sb s; cbn [serve_stream]; [discriminate|].
+  pose proof (read_packet_no_panic s) as Hnp.
+  destruct (read_packet s) as [r alloc]. cbn [fst] in Hnp.
+  destruct r as [typ flag body rest|e|]; [|discriminate|congruence].
+  pose proof (dispatch_no_panic h sb typ flag body) as Hd.
+  destruct (dispatch h sb typ flag body) as [[sb' ev]|e|]; [|discriminate|congruence].
+  specialize (IH h sb' rest). destruct (serve_stream f h sb' rest) as [evs e]. exact IH.
+Qed.
+
+Theorem serve_no_panic h s : snd (serve h s) <> EndPanic.
+Proof. apply serve_stream_no_panic. Qed.
+
+Lemma serve_stream_no_fuel f : forall h sb s, (length s < f)%nat -> snd (serve_stream f h sb s) <> EndFuel.
+Proof.
+  induction f as [|f IH]; intros h sb s Hl; [lia|]. cbn [serve_stream].
+  destruct (read_packet s) as [r alloc] eqn:Erp.
+  destruct r as [typ flag body rest|e|]; [|discriminate|discriminate].
+  apply read_packet_shrinks in Erp.
+  destruct (dispatch h sb typ flag body) as [[sb' ev]|e|]; [|discriminate|discriminate].
+  assert (Hr : (length rest < f)%nat) by lia.
+  specialize (IH h sb' rest Hr). destruct (serve_stream f h sb' rest) as [evs e]. exact IH.
+Qed.
+
+Theorem serve_fuel_sufficient h s : snd (serve h s) <> EndFuel.
+Proof. apply serve_stream_no_fuel. lia. Qed.
+
+Lemma al_bound s r alloc n : read_packet s = (r, alloc) ->
+  In (EvAlloc n) (match alloc with Some m => [EvAlloc m] | None => [] end) -> n <= max_packet.
+Proof.
+  intros Erp Hin. destruct alloc as [m|]; [|destruct Hin].
+  destruct Hin as [Hin|[]]. injection Hin as ->.
+  apply (read_packet_alloc_bound s). rewrite Erp. reflexivity.
+Qed.
+
+Lemma serve_stream_alloc f : forall h sb s n,
+  In (EvAlloc n) (fst (serve_stream f h sb s)) -> n <= max_packet.
+Proof.
+  induction f as [|f IH]; intros h sb s n; cbn [serve_stream]; [intros []|].
+  destruct (read_packet s) as [r alloc] eqn:Erp.
+  pose proof (al_bound s r alloc n Erp) as Hal.
+  destruct r as [typ flag body rest|e|]; [|exact Hal|exact Hal].
+  destruct (dispatch h sb typ flag body) as [[sb' ev]|e|] eqn:Ed; [|exact Hal|exact Hal].
+  specialize (IH h sb' rest n). destruct (serve_stream f h sb' rest) as [evs e]. cbn [fst] in *.
+  intros Hin. apply in_app_or in Hin. destruct Hin as [Hin|Hin]; [exact (Hal Hin)|].
+  apply in_app_or in Hin. destruct Hin as [Hin|Hin]; [|exact (IH Hin)].
+  exfalso. exact (dispatch_no_alloc _ _ _ _ _ _ _ Ed n Hin).
+Qed.
+
+Theorem serve_alloc_bound h s n : In (EvAlloc n) (fst (serve h s)) -> n <= max_packet.
+Proof. apply serve_stream_alloc. Qed.
+
+(* ---------- streams of frames ---------- *)
 (* a stream of frames: (type, flags, body) *)
 Definition frame := (N * N * list N)%type.
 Definition frame_ok (f : frame) : Prop :=
@@ -108,12 +738,81 @@ Definition well_formed (f : frame) : bool := let '(t, fl, b) := f in negb (malfo
 (* the fuelled loop does not depend on the fuel once it is enough *)
 Theorem serve_stream_fuel h sb s f1 f2 : (length s < f1)%nat -> (length s < f2)%nat ->
   serve_stream f1 h sb s = serve_stream f2 h sb s.
-Proof. Admitted.
+Proof.
+  revert f2 sb s. induction f1 as [|f1 IH]; intros f2 sb s H1 H2; [lia|].
+  destruct f2 as [|f2]; [lia|]. cbn [serve_stream].
+  destruct (read_packet s) as [r alloc] eqn:Erp.
+  destruct r as [typ flag body rest|e|]; [|reflexivity|reflexivity].
+  apply read_packet_shrinks in Erp.
+  destruct (dispatch h sb typ flag body) as [[sb' ev]|e|]; [|reflexivity|reflexivity].
+  rewrite (IH f2 sb' rest) by lia. reflexivity.
+Qed.
+
+Lemma serve_stream_frame f h sb t fl b x tail :
+  t < 16 -> fl < 16 -> pack (t * 16 + fl) b = Some x ->
+  serve_stream (S f) h sb (x ++ tail) =
+    match dispatch h sb t fl b with
+    | Ok (sb', ev) => let '(evs, e) := serve_stream f h sb' tail in ([EvAlloc (len b)] ++ ev ++ evs, e)
+    | Err e => ([EvAlloc (len b)], EndErr e)
+    | Panic => ([EvAlloc (len b)], EndPanic)
+    end.
+Proof.
+  intros Ht Hf Hp. cbn [serve_stream]. rewrite (read_packet_frame t fl b x tail Ht Hf Hp). reflexivity.
+Qed.
+
+Lemma frame_ok_pack t fl b : frame_ok (t, fl, b) ->
+  t < 16 /\ fl < 16 /\ exists x, pack (t * 16 + fl) b = Some x /\ (1 <= length x)%nat.
+Proof.
+  intros (Ht & Hf & Hb). split; [exact Ht|]. split; [exact Hf|].
+  unfold max_packet in Hb. apply (pack_defined_iff (t * 16 + fl)) in Hb. destruct Hb as (x & Hx).
+  exists x. split; [exact Hx|]. apply pack_inv in Hx. destruct Hx as (rl & _ & -> & _).
+  cbn [length]. lia.
+Qed.
+
+(* the loop over a run of well-formed frames, then whatever follows *)
+Lemma serve_frames h fs : Forall frame_ok fs -> forallb well_formed fs = true ->
+  forall sb, exists evs sb', forall tail f, (length (enc_frames fs ++ tail) < f)%nat ->
+    serve_stream f h sb (enc_frames fs ++ tail) =
+      (evs ++ fst (serve_stream (S (length tail)) h sb' tail),
+       snd (serve_stream (S (length tail)) h sb' tail)).
+Proof.
+  induction fs as [|[[t fl] b] fs IH]; intros HF HW sb.
+  - exists [], sb. intros tail f Hl. cbn [enc_frames app] in *.
+    rewrite (serve_stream_fuel h sb tail f (S (length tail))) by lia.
+    destruct (serve_stream (S (length tail)) h sb tail) as [evs e]. reflexivity.
+  - inversion HF as [|x0 l0 Hok HF']; subst x0 l0.
+    cbn [forallb] in HW. apply andb_true_iff in HW. destruct HW as [Hw HW'].
+    unfold well_formed in Hw. apply negb_true_iff in Hw.
+    destruct (frame_ok_pack t fl b Hok) as (Ht & Hf & x & Hx & Hxl).
+    destruct (dispatch_wellformed h sb t fl b Hw) as (sb1 & ev & Hd).
+    destruct (IH HF' HW' sb1) as (evs & sb' & Hrest).
+    exists ([EvAlloc (len b)] ++ ev ++ evs), sb'. intros tail f Hl.
+    cbn [enc_frames] in *. rewrite Hx in *. rewrite <- app_assoc in *.
+    destruct f as [|f]; [lia|].
+    rewrite (serve_stream_frame f h sb t fl b x _ Ht Hf Hx), Hd.
+    rewrite Hrest by (rewrite app_length in Hl; lia).
+    rewrite <- !app_assoc. reflexivity.
+Qed.
+
+Lemma serve_frames_tail h fs : Forall frame_ok fs -> forallb well_formed fs = true ->
+  snd (serve h (enc_frames fs)) = EndErr EEOF /\
+  exists sb', forall tail,
+    serve h (enc_frames fs ++ tail) =
+      (fst (serve h (enc_frames fs)) ++ fst (serve_stream (S (length tail)) h sb' tail),
+       snd (serve_stream (S (length tail)) h sb' tail)).
+Proof.
+  intros HF HW. destruct (serve_frames h fs HF HW []) as (evs & sb' & H).
+  assert (H0 : serve h (enc_frames fs) = (evs, EndErr EEOF)).
+  { unfold serve. pose proof (H [] (S (length (enc_frames fs)))) as H0.
+    rewrite app_nil_r in H0. rewrite H0 by lia. cbn. rewrite app_nil_r. reflexivity. }
+  split; [rewrite H0; reflexivity|].
+  exists sb'. intros tail. rewrite H0. cbn [fst]. unfold serve. apply H. lia.
+Qed.
 
 (* well-formed frames followed by the end of the stream: every frame is dispatched, then io.EOF *)
 Theorem serve_wellformed_then_eof h fs : Forall frame_ok fs -> forallb well_formed fs = true ->
   snd (serve h (enc_frames fs)) = EndErr EEOF.
-Proof. Admitted.
+Proof. intros HF HW. apply (serve_frames_tail h fs HF HW). Qed.
 
 (* malformed packet after well-formed ones: the earlier packets are processed exactly as without
    it, the body of the malformed packet is read, and the loop ends with a protocol error *)
@@ -123,7 +822,14 @@ Theorem serve_prefix_then_malformed h fs t fl b rest :
   exists e, protocol_error e /\
     serve h (enc_frames fs ++ enc_frames [(t, fl, b)] ++ rest)
     = (fst (serve h (enc_frames fs)) ++ [EvAlloc (len b)], EndErr e).
-Proof. Admitted.
+Proof.
+  intros HF HW Hok Hm. destruct (serve_frames_tail h fs HF HW) as (_ & sb' & H).
+  destruct (frame_ok_pack t fl b Hok) as (Ht & Hf & x & Hx & _).
+  destruct (dispatch_malformed h sb' t fl b Hm) as (e & Hd & He).
+  exists e. split; [exact He|]. rewrite H.
+  cbn [enc_frames]. rewrite Hx, app_nil_r.
+  rewrite (serve_stream_frame _ h sb' t fl b x rest Ht Hf Hx), Hd. reflexivity.
+Qed.
 
 (* over-long length field after well-formed packets *)
 Theorem serve_prefix_then_overlong h fs hd c1 c2 c3 c4 rest :
@@ -131,7 +837,11 @@ Theorem serve_prefix_then_overlong h fs hd c1 c2 c3 c4 rest :
   128 <= c1 -> 128 <= c2 -> 128 <= c3 -> 128 <= c4 ->
   serve h (enc_frames fs ++ hd :: c1 :: c2 :: c3 :: c4 :: rest)
   = (fst (serve h (enc_frames fs)), EndErr EInvalidPacketLength).
-Proof. Admitted.
+Proof.
+  intros HF HW H1 H2 H3 H4. destruct (serve_frames_tail h fs HF HW) as (_ & sb' & H).
+  rewrite H. cbn [serve_stream]. rewrite (read_packet_overlong hd c1 c2 c3 c4 rest H1 H2 H3 H4).
+  cbn [fst snd]. rewrite app_nil_r. reflexivity.
+Qed.
 
 (* truncation anywhere inside a packet: earlier packets processed, then EOF / unexpected EOF *)
 Theorem serve_prefix_then_truncated h fs t fl b x pre suf :
@@ -139,7 +849,14 @@ Theorem serve_prefix_then_truncated h fs t fl b x pre suf :
   pack (t * 16 + fl) b = Some x -> x = pre ++ suf -> suf <> [] ->
   exists al e, (e = EEOF \/ e = EUnexpectedEOF) /\ (al = [] \/ al = [EvAlloc (len b)]) /\
     serve h (enc_frames fs ++ pre) = (fst (serve h (enc_frames fs)) ++ al, EndErr e).
-Proof. Admitted.
+Proof.
+  intros HF HW Hok Hx Hsplit Hs. destruct (serve_frames_tail h fs HF HW) as (_ & sb' & H).
+  destruct (read_packet_trunc _ b x pre suf Hx Hsplit Hs) as (e & He & [Hrp | Hrp]).
+  - exists [], e. split; [exact He|]. split; [left; reflexivity|].
+    rewrite H. cbn [serve_stream]. rewrite Hrp. reflexivity.
+  - exists [EvAlloc (len b)], e. split; [exact He|]. split; [right; reflexivity|].
+    rewrite H. cbn [serve_stream]. rewrite Hrp. reflexivity.
+Qed.
 
 (* ---------- non-vacuity ---------- *)
 Example ex_malformed_suback_short : malformed 9 0 [] = true.
@@ -151,3 +868,7 @@ Example ex_serve_mixed :
   ([EvAlloc 3; EvIn (Hand {| m_topic := [97]; m_id := 0; m_qos := 0; m_retain := false; m_dup := false; m_payload := [] |});
     EvAlloc 0], EndErr EInvalidPacketLength).
 Proof. vm_compute. reflexivity. Qed.
+
+Print Assumptions serve_no_panic.
+Print Assumptions serve_prefix_then_malformed.
+Print Assumptions serve_alloc_bound.
